@@ -25,7 +25,11 @@ type c02Op struct {
 	Level  string `json:"lvl,omitempty"`
 	Group  []int  `json:"g,omitempty"` // one side of a partition
 	Gap    int    `json:"gap,omitempty"`
-	Ms     int    `json:"ms,omitempty"`
+	// WaitNewLeader: before issuing, step until some node other than the last
+	// fault's target believes it is leader (bounded), so that the reads hit a
+	// leader that has only just been elected.
+	WaitNewLeader bool `json:"wnl,omitempty"`
+	Ms            int  `json:"ms,omitempty"`
 }
 
 type c02Scenario struct {
@@ -108,8 +112,13 @@ func c02Gen(r *core.Rand, tier string) any {
 				sc.Ops = append(sc.Ops,
 					c02Op{Kind: "w", Client: 0, Node: 0, Key: k, Gap: r.Range(0, 30)},
 					c02Op{Kind: "stepdown", Gap: r.Intn(12)})
+				toLeader := r.Bool(0.6)
 				for j := 0; j < sc.Clients; j++ {
-					sc.Ops = append(sc.Ops, c02Op{Kind: "r", Client: j, Node: 1 + r.Intn(sc.Nodes), Key: k, Level: "linearizable", Gap: r.Intn(3)})
+					op := c02Op{Kind: "r", Client: j, Node: 1 + r.Intn(sc.Nodes), Key: k, Level: "linearizable", Gap: r.Intn(3)}
+					if toLeader {
+						op.Node, op.WaitNewLeader, op.Gap = 0, j == 0, 0
+					}
+					sc.Ops = append(sc.Ops, op)
 				}
 			case 3: // leader crashes with a write in flight; readers everywhere
 				sc.Ops = append(sc.Ops,
@@ -335,6 +344,9 @@ func c02Run(c *core.Ctx, raw json.RawMessage) {
 		}
 		switch op.Kind {
 		case "w", "r":
+			if op.WaitNewLeader {
+				s.RunUntil(func() bool { l := s.Leader(); return l != nil && l.Idx != lastTarget }, 5*time.Second)
+			}
 			op.Node = resolveNode(op.Node)
 			if op.Node < 1 || op.Node > sc.Nodes {
 				continue
